@@ -214,7 +214,12 @@ def check():
         if g:
             L.expect_unsat("lookup: the table is consulted only when caching is on", cond + [S.b(nocache)], on_sat)
             keys["lookup"] = g[0][2][1]
-            okl = g[0][2][0] == table and any(t == g[0][3] for t in ms.subterms(p.ret))
+            if p.ret[0] == "variant" and p.ret[2] == "None":
+                # written with `?`: a miss answers None - and only a miss
+                L.expect_unsat("lookup: None from a consulted table only on a miss", cond + [S.disc(S.v(g[0][3])) != 0], on_sat)
+                okl = g[0][2][0] == table
+            else:
+                okl = g[0][2][0] == table and any(t == g[0][3] for t in ms.subterms(p.ret))
             structural("lookup: answers with the entry of its own table", okl)
         else:
             L.expect_unsat("lookup: answers None without consulting the table only when caching is off", cond + [z3.Not(S.b(nocache))], on_sat)
